@@ -5,6 +5,7 @@ from ..engine import (CALLS, CTORS, HELD, MAYBE, atomic_ops, atomic_field_of, ca
                       handle_class, is_lock_carrier)
 from ..flow import paths, path_positions, TooManyPaths
 from ..guards import check_guarded_fields, field_refs, locks_of
+from ..typestate import NonNull
 from .. import common
 
 EXPLANATION = (
@@ -314,6 +315,11 @@ def shared(ctx):
                       (st["k"] == "CallExpr" and callee_fq(st).startswith("gmlc::libguarded::try_lock_shared_handle"))]
             ok = bool(dp) and bool(builds) and all(any(f.dominates(f.pos_of(d), f.pos_of(b)) and f.pos_of(d) != f.pos_of(b)
                                                        for d in dp) for b in builds)
+            if not ok and dp and builds:
+                # a drain that is skipped only when the pending flag was seen clear is as good (nothing is queued then)
+                nn = NonNull(f)
+                ok = all(any(f.dominates(f.pos_of(d), f.pos_of(b)) and f.pos_of(d) != f.pos_of(b) for d in dp) or
+                         ("null", "this.m_pendingWrites") in nn.before.get(tuple(f.pos_of(b)), set()) for b in builds)
             ctx.ob(rid, ok, f.where, "%s attempts a drain before it builds the shared handle" % nm,
                    "" if ok else "a path grants shared access without having tried to apply queued work", fn=f.label, inst=f.qname)
     for f in fns(ctx, "load"):
@@ -403,7 +409,13 @@ def capture(ctx, rid="C06.capture"):
             news = [st for st in f.stmts.values() if st["k"] == "CXXNewExpr"]
             ok = bool(news) and all(re.match(r"^gmlc::libguarded::(void_runner|type_runner)<", n_["alloc_type"]) or
                                     any(r.qname == n_["alloc_type"] for r in runners) for n_ in news)
-            ctx.ob(rid, ok, f.where, "modify_detach queues a task_runner", "" if ok else str([n_["alloc_type"] for n_ in news]),
+            if not news:
+                # what is queued may be a std::packaged_task held by value: it captures exceptions just the same
+                enq = [st for st in f.stmts.values() if st["k"] == "CXXMemberCallExpr" and
+                       (st.get("callee") or {}).get("name") in ("emplace_back", "push_back")]
+                ok = bool(enq) and all("std::packaged_task<" in (st["callee"].get("recq") or "") or
+                                       "task_runner<" in (st["callee"].get("recq") or "") for st in enq)
+            ctx.ob(rid, ok, f.where, "modify_detach queues a task_runner / packaged_task", "" if ok else str([n_["alloc_type"] for n_ in news]),
                    fn=f.label, inst=f.qname)
     for f in fb.functions(name="call_returning_future"):
         apps = [st for st in f.stmts.values() if st["k"] == "CXXOperatorCallExpr" and st.get("op") == "()"]
